@@ -2,4 +2,4 @@
 From LV Require Import Session.Sharing.
 Require Import ExtrOcamlBasic.
 Extraction Language OCaml.
-Extraction "../build/ocaml/C14/model.ml" step obs_code mkFlags mkClient count_inbound_normal.
+Extraction "../build/ocaml/C14/model.ml" step pump obs_code mkFlags mkClient count_inbound_normal.
